@@ -253,6 +253,35 @@ fn check_find_on_own_edges<H: HistT>(h: &H, line: &Value, label: &str, rep: &mut
 }
 
 fn do_cw<H: HistT>(line: &Value, want: &HWant, rep: &mut Report) {
+    if want.prop == "C06" && rep.distinct.insert(hash_str(&format!("cw-sweep-{}", H::NAME))) {
+        // once per type: ranges whose step (end - start) / LEN is not representable, so that the
+        // computed last edge may land one ulp above or below `end` and inner edges off the lattice;
+        // find on every edge, its neighbours, and the constructor's own arguments
+        let mut cases: Vec<(f64, f64)> = Vec::new();
+        for a in [0.0, 1.0, -3.0, 0.1] {
+            for j in 1..=40 {
+                cases.push((a, a + j as f64));
+                cases.push((a, a + j as f64 * 0.1));
+            }
+        }
+        for (a, b) in cases {
+            rep.replays += 1;
+            let h = H::with_const_width(a, b);
+            check_find_on_own_edges(&h, line, "with_const_width on a range with an unrepresentable step", rep);
+            let up = |x: f64| if x == 0.0 { 5e-324 } else if x > 0.0 { f64::from_bits(x.to_bits() + 1) } else { f64::from_bits(x.to_bits() - 1) };
+            let down = |x: f64| -up(-x);
+            for x in [a, b, down(b), up(b), up(a), down(a)] {
+                rep.evaluations += 1;
+                let r = h.ranges();
+                let want_bin = (0..H::LEN).find(|&i| r[i] <= x && x < r[i + 1]);
+                let got = catch_unwind(AssertUnwindSafe(|| h.find(x))).unwrap_or(Err(()));
+                if got.ok() != want_bin {
+                    viol(rep, "C06", H::NAME, line, "find", format!("with_const_width({:e}, {:e}): find({:e}) = {:?} but the containing bin is {:?}; edges {:?}", a, b, x, got, want_bin, r));
+                    break;
+                }
+            }
+        }
+    }
     if want.prop == "C06" {
         // histograms built by with_const_width, ordinary and only a few ulps wide
         let a = line["a"].as_i64().unwrap() as f64;
@@ -441,6 +470,16 @@ struct Last {
 }
 
 fn do_hist<H: HistT>(line: &Value, want: &HWant, rep: &mut Report) {
+    // a history with a Clone step is replayed twice: Clone::clone and Clone::clone_from at the
+    // complementary positions
+    let has_clone = line["h"].as_array().map(|a| a.iter().any(|e| e[0].as_str() == Some("clone"))).unwrap_or(false);
+    do_hist_parity::<H>(line, want, rep, 0);
+    if has_clone {
+        do_hist_parity::<H>(line, want, rep, 1);
+    }
+}
+
+fn do_hist_parity<H: HistT>(line: &Value, want: &HWant, rep: &mut Report, parity: usize) {
     let prop = want.prop.as_str();
     if !matches!(prop, "C06" | "C11" | "C13" | "C17" | "C18" | "C12") {
         return;
@@ -528,7 +567,7 @@ fn do_hist<H: HistT>(line: &Value, want: &HWant, rep: &mut Report) {
                     // the same step of the specification: use them alternately
                     let src = w[*s].clone();
                     match (&mut w[*d], &src) {
-                        (Some(dst), Some(sv)) if step % 2 == 1 => dst.clone_from(sv),
+                        (Some(dst), Some(sv)) if (step + parity) % 2 == 1 => dst.clone_from(sv),
                         _ => w[*d] = src,
                     }
                     last = Last { kind: "clone", ok: true, bin: 0, panic: false, err: None };
